@@ -23,10 +23,12 @@ func H_CulpritSound_Multi() {
 	inbox := inboxOf(all, "a")
 
 	blamed := map[party.ID]bool{}
+	rejected := map[party.ID]bool{} // senders whose message the protocol rejected when the handler presented it
 	cfg2 := defaultCfg(rounds, stubIDs)
 	cfg2.verify = func(r *stubRound, msg round.Message) error {
 		if vsym.Bool("verifyfails") {
 			blamed[msg.From] = true
+			rejected[msg.From] = true
 			return errors.New("stub: verification failed")
 		}
 		return nil
@@ -34,6 +36,7 @@ func H_CulpritSound_Multi() {
 	cfg2.storeB = func(r *stubRound, msg round.Message) error {
 		if vsym.Bool("bcastfails") {
 			blamed[msg.From] = true
+			rejected[msg.From] = true
 			return errors.New("stub: broadcast rejected")
 		}
 		return nil
@@ -50,6 +53,15 @@ func H_CulpritSound_Multi() {
 	vsym.Assume(err == nil)
 	// one message of b is replaced by garbage (decode failure or arbitrary content), or a relayed abort notice arrives
 	tamper := vsym.Choose("tamper", len(inbox)+2)
+	// delivery order: as sent, or reversed (point-to-point messages then reach the party before the same sender's
+	// broadcast of the round, later rounds before earlier ones)
+	if vsym.Choose("reversed", 2) == 1 {
+		rev := make([]*Message, len(inbox))
+		for i, m := range inbox {
+			rev[len(inbox)-1-i] = m
+		}
+		inbox = rev
+	}
 	for i, m := range inbox {
 		mm := *m
 		if i == tamper {
@@ -65,6 +77,21 @@ func H_CulpritSound_Multi() {
 		h.Accept(&mm)
 	}
 	_, rerr := h.Result()
+	// completeness of attribution: a message the protocol rejected ends the session with an error naming its sender
+	for _, id := range stubIDs {
+		if rejected[id] {
+			var perr Error
+			named := false
+			if rerr != nil && errors.As(rerr, &perr) {
+				for _, c := range perr.Culprits {
+					if c == id {
+						named = true
+					}
+				}
+			}
+			vsym.Assert(named, "a message that fails verification ends the session with an error attributed to its sender")
+		}
+	}
 	if rerr != nil && rerr.Error() != notFinished {
 		var perr Error
 		ok := errors.As(rerr, &perr)
